@@ -139,11 +139,17 @@ def norm_cont_rule(repo, R):
 
 def run(repo, R):
     R.rule("INPUTS", "the public wrapper uses its parameters as given: no path replaces one by a filtered/re-ordered/scaled/defaulted copy")
-    from ..flow import check_wrapper_inputs
+    R.rule("DISPATCH", "the wrapper assembles Cartesian, spherical, mixed and transformed results through the four assembly routes, same keywords on each")
+    from ..flow import check_wrapper_inputs, check_wrapper_dispatch
     for _w in ['gbasis.integrals.overlap.overlap_integral', 'gbasis.integrals.overlap_asymm.overlap_integral_asymmetric']:
         _wf = repo.func(_w)
         R.note_function(_wf.qualname)
         check_wrapper_inputs(repo, _wf, R)
+        if _wf.name.endswith("_asymmetric"):
+            from .c09 import check_asym_wrapper
+            check_asym_wrapper(repo, _wf, R)
+        else:
+            check_wrapper_dispatch(repo, _wf, R, "DISPATCH")
     R.rule("MPT", "every returned block of the overlap kernel is derived from the recursion; the only shortcut is the documented screening")
     from .mpt import must_pass_through
     must_pass_through(repo, R, repo.func(OVERLAP), allowed_shortcuts=("is_integral_screened",))
